@@ -176,7 +176,47 @@ def search_c10(results, tier, seed, broken):
                   "rule": "k = 0..4 (thorough 0..6); dense / sparse / 0-1 / edge / counting vectors; factor vectors 1, (1..1,u..u), y^-i, random non-zero; variants honest, P+Q, a+1, b-1, dropped round, wrong n, forced identity L; non-trivial = k >= 1; distinct = distinct (|L|,|R|,a,b)"}
 
 
+# ------------------------------------------------------------------ C03
+def search_c03(results, tier, seed, broken):
+    """the real verdict against the separate relations (a) ID, (b) R_t = 0, (c) R_ipp = 0 evaluated from their
+    specification (explicit folding) on the same proof object and challenges"""
+    hits, n, nontriv = [], 0, set()
+    dist = Counter()
+    for comp, streams, r in results:
+        if comp != "r1cs":
+            continue
+        for cid, s in r.summary.items():
+            im, m = r.impl.get(cid) or {}, r.model.get(cid) or {}
+            if 15 not in im:
+                continue
+            n += 1
+            verdict = int(im[15][0])
+            rel = m.get(17)
+            if rel is not None:
+                expect_accept = (rel == [1, 1, 1])
+                dist["relations=%s verdict=%d" % (rel, verdict)] += 1
+                nontriv.add(str(rel) + " ".join(im.get(13, []))[:120])
+            else:
+                expect_accept = False   # the transcript-side checks (identity / shape / capacity) already fail in the model
+                dist["no-scalars verdict=%d" % verdict] += 1
+            if verdict == 99:
+                hits.append(_hit(r, comp, streams, cid, "verifier panicked"))
+            elif expect_accept and verdict != 0:
+                hits.append(_hit(r, comp, streams, cid, "relations (a),(b),(c) all hold but verify rejects (verdict %d)" % verdict))
+            elif (not expect_accept) and verdict == 0:
+                hits.append(_hit(r, comp, streams, cid, "verify accepts although the separate relations say %s" % (rel,)))
+    return hits, {"searched": n, "hits": len(hits), "distinct_nontrivial": len(nontriv), "distribution": dict(dist),
+                  "rule": "honest proofs, proofs from violating witnesses (constraint / gate via hook H2), single-field mutations of every kind, forced zero draws (identity T_1 etc.); the real verdict is compared with ID /\\ R_t=0 /\\ R_ipp=0 evaluated by the specification with explicit round-by-round folding; distinct = distinct (relation triple, scalar vector)"}
+
+
 PROPS = {
+    "C03": {
+        "prop_files": ["Properties/C03.v"], "run_files": ["Run/R1cs.v"],
+        "level": "proof",
+        "components": lambda tier: [("r1cs", ["honest", "violate", "mutate", "mutfields", "forced"], {})],
+        "search": search_c03,
+        "assumptions": ["field and module laws (hypotheses)", "challenges = oracle on the transcript history; the challenges the run inverts are non-zero (all_nz hypothesis)"],
+    },
     "C10": {
         "prop_files": ["Properties/C10.v"], "run_files": ["Run/Ipp.v"],
         "level": "proof",
